@@ -56,7 +56,7 @@ PROPS = {
         rule="all 65,536 session ids through the constructors, all 256 status and reason codes, all 65,536 (PType, SType) pairs through Type() (and a ninth of them, plus PType 0..2 completely, through the decoder); distinct = distinct case texts",
     ),
     "C04": dict(
-        prop_file="props/C04.v", proof_files=WIRE_PROOFS + AST_PROOFS + ["FillCompose.v"] + SML_DEEP + ["PrintProofs.v", "LayoutProofs.v", "OffsetProofs.v", "TokenProofs.v", "AsciiTokens.v", "TokenTrees.v", "LexPrinted.v", "AsciiLex.v", "LexTrees.v", "MsgRoundTrip.v"], tie_files=["TablesTie.v"],
+        prop_file="props/C04.v", proof_files=WIRE_PROOFS + AST_PROOFS + ["FloatRound.v", "FillCompose.v"] + SML_DEEP + ["PrintProofs.v", "LayoutProofs.v", "OffsetProofs.v", "TokenProofs.v", "AsciiTokens.v", "TokenTrees.v", "LexPrinted.v", "AsciiLex.v", "LexTrees.v", "MsgRoundTrip.v"], tie_files=["TablesTie.v"],
         suites=["C04"],
         decisive=[],
         assumptions=["float text is strconv's (FormatFloat/ParseFloat), an oracle of the model rendered by the harness",
@@ -90,7 +90,7 @@ PROPS = {
         rule="exhaustive grid: 14 item types x 4 declaration forms (+ a spaced form) x lower, upper, count in 0..5; overflowing bounds; ASCII variables: 5 declaration forms x bounds 0..4 x fill lengths 0..6",
     ),
     "C19": dict(
-        prop_file="props/C19.v", proof_files=WIRE_PROOFS + AST_PROOFS + ["FillCompose.v", "PrintProofs.v"] + SML_LAYOUT + ["TokenProofs.v", "AsciiTokens.v", "TokenTrees.v", "LexPrinted.v", "AsciiLex.v", "LexTrees.v", "MsgRoundTrip.v"], tie_files=["TablesTie.v"],
+        prop_file="props/C19.v", proof_files=WIRE_PROOFS + AST_PROOFS + ["FloatRound.v", "FillCompose.v", "PrintProofs.v"] + SML_LAYOUT + ["TokenProofs.v", "AsciiTokens.v", "TokenTrees.v", "LexPrinted.v", "AsciiLex.v", "LexTrees.v", "MsgRoundTrip.v"], tie_files=["TablesTie.v"],
         suites=["C19"],
         decisive=[],
     ),
@@ -104,7 +104,7 @@ PROPS = {
                      "TotalAlloc is measured per input in a worker subprocess; the linear bound (2048 bytes per input byte + 64 KiB) is about 4x the worst ratio seen on the clean tree"],
     ),
     "C09": dict(
-        prop_file="props/C09.v", proof_files=WIRE_PROOFS + AST_PROOFS + ["FillCompose.v"], tie_files=["TablesTie.v"],
+        prop_file="props/C09.v", proof_files=WIRE_PROOFS + AST_PROOFS + ["FillCompose.v", "FillTrees.v"], tie_files=["TablesTie.v"],
         suites=["C09"],
         decisive=["kind"],
         decisive_why="a fill that is refused by one side and accepted by the other contradicts C09_subst (refusal coincides with the factory's)",
@@ -132,7 +132,7 @@ PROPS = {
         assumptions=["partial by nature: the Go memory model, scheduler, race detector's happens-before view and the thread safety of regexp/fmt/sort/strconv are outside the model; the -race driver is the observation for them"],
     ),
     "C12": dict(
-        prop_file="props/C12.v", proof_files=WIRE_PROOFS + AST_PROOFS, tie_files=["TablesTie.v"],
+        prop_file="props/C12.v", proof_files=WIRE_PROOFS + AST_PROOFS + ["FloatRound.v"], tie_files=["TablesTie.v"],
         suites=["C12"],
         decisive=["kind", "bytes", "str", "vars", "size", "entries"],
         decisive_why="C12_leaf_exact / C12_int_no_wrap / C12_leaf_refused: the model stores the mathematical value or refuses; printing and encoding of stored values are pinned by C02",
